@@ -530,7 +530,7 @@ class History:
             return False
         st, val = model_construct(self.drv, self.ci, margs)
         if ierr is not None:
-            if st != "err" or tuple(val) != tuple(ierr):
+            if st != "err" or not self.same_err(ierr, val, kw.get("len_low", 0.0) < 0):
                 self.tie_bad.append(dict(at="construct", impl=str(ierr), model=[st, str(val)]))
             return False
         if st == "err":
@@ -543,6 +543,14 @@ class History:
         self.compare("construct")
         self.shape_probe("construct")
         return True
+
+    def same_err(self, ierr, merr, neg_len_low):
+        """error kind, argument and case must agree; exception: a negative (hence rejected) len_low on a TPL class -
+        Python's float power of the negative base is complex, C pow gives NaN, so check_arg_bounds stops at `var`
+        in the implementation and at `len_low` in the model: both reject with a bounds error, the argument named differs"""
+        if tuple(ierr) == tuple(merr):
+            return True
+        return bool(neg_len_low and self.cls in TPL and ierr[0] == 0 and merr[0] == 0)
 
     def compare(self, at):
         mo = obs_model(self.drv, self.ci, self.ms)
@@ -616,7 +624,8 @@ class History:
                           self.cls, self.kind, must_reject, op["v"], b[self.names.index(must_reject)].tolist()),
                       "accepted-out-of-bounds:%s" % k)
         if ierr is not None:
-            if st != "err" or tuple(val) != tuple(ierr):
+            neg_low = k == "opt" and self.optn[op["i"]] == "len_low" and op["v"] < 0
+            if st != "err" or not self.same_err(ierr, val, neg_low):
                 self.tie_bad.append(dict(at="step %d %s" % (len(self.ops_done), k), impl=str(ierr), model=[st, str(val)]))
             return False                                    # a raising assignment ends the history
         if st == "err":
